@@ -66,6 +66,9 @@ MUTANTS = [
     ("M130", "acl.py", "            input=self._input.copy(),", "            input=self._input,", "C16"),
     ("M131", "ace_group.py", "                src_counter = len(item.srcaddr.items) or 1", "                src_counter = len(item.srcaddr.items) or 0", "C15"),
     ("M132", "acl.py", "            elif isinstance(item, AceGroup):\n                _ungrouped = self._ungroup(item.items)\n                ungrouped_l.extend(_ungrouped)", "            elif isinstance(item, AceGroup):\n                _ungrouped = self._ungroup(item.items[:3])\n                ungrouped_l.extend(_ungrouped)", "C15 C17"),
+    ("M140", "config_parser.py", "            acl_d[\"output\"] = sorted(set(acl_d[\"output\"]))", "            acl_d[\"output\"] = sorted(set(acl_d[\"output\"]))[:1]", "C07"),
+    ("M141", "functions.py", "                    address_ag_o.sequence = 0\n", "", "C07"),
+    ("M142", "config_parser.py", "        config_l = [s for s in config_l if s and not s.startswith(\"!\")]", "        config_l = [s for s in config_l if s and not s.lstrip().startswith(\"!\") and not s.startswith(\"hostname\")]", "C07"),
     ("M30", "port.py", "            return [ports[0] - 1] if ports else [65535]", "            return [ports[0]] if ports else [65535]", "C08"),
     ("M31", "port.py", "            return [ports[-1] + 1] if ports else [1]", "            return [ports[1] + 1] if ports else [1]", "C08"),
     ("M32", "port.py", "        ports = sorted(ports)\n        if operator == \"eq\":", "        if operator == \"eq\":", "C08"),
